@@ -290,12 +290,18 @@ func symBinop(op token.Token, t types.Type, x, y value) value {
 		case token.NEQ:
 			return mkBool(ex, "(not "+bin("=")+")")
 		case token.AND:
-			// x & (2^k-1) on a non-negative value
-			if _, lit, conc := concIntLit(y); conc {
-				if m, ok := new(big.Int).SetString(lit, 10); ok {
-					m1 := new(big.Int).Add(m, big.NewInt(1))
-					if m.Sign() >= 0 && new(big.Int).And(m1, m).Sign() == 0 && !ii.signed {
-						return res("(mod " + a.e + " " + m1.String() + ")")
+			// x & (2^k-1) = x mod 2^k (the mathematical, non-negative remainder) for every
+			// two's-complement x, signed or not, as long as the mask fits the positive range
+			for _, side := range []struct {
+				c  value
+				se string
+			}{{y, a.e}, {x, b.e}} {
+				if _, lit, conc := concIntLit(side.c); conc {
+					if m, ok := new(big.Int).SetString(lit, 10); ok {
+						m1 := new(big.Int).Add(m, big.NewInt(1))
+						if m.Sign() >= 0 && new(big.Int).And(m1, m).Sign() == 0 {
+							return res("(mod " + side.se + " " + m1.String() + ")")
+						}
 					}
 				}
 			}
